@@ -33,7 +33,22 @@ theorem validateBody_none (p : Params) (outs : List OutDef) (b : Blk) (iv : Nat)
           · simp at h
           · split at h
             · simp at h
-            · simp_all
+            · split at h
+              · simp at h
+              · simp_all
+
+/-- a body that validates has no commitment twice among its inputs nor among its outputs -/
+theorem validateBody_none_nodup (p : Params) (outs : List OutDef) (b : Blk) (iv : Nat)
+    (h : validateBody p outs b iv = none) : b.ins.Nodup ∧ (b.outs.map (·.1)).Nodup := by
+  unfold validateBody at h
+  split at h
+  · simp at h
+  · split at h
+    · simp at h
+    · rename_i hd
+      unfold dupInBody at hd
+      simp only [Bool.or_eq_true, Bool.not_eq_true', decide_eq_false_iff_not, not_or, Decidable.not_not] at hd
+      exact hd
 
 /-- what a successful `applyBlock` establishes and produces -/
 theorem applyBlock_ok (p : Params) (s s' : UState) (b : Blk) (h : applyBlock p s b = .ok s') :
@@ -69,5 +84,20 @@ theorem applyBlock_maturity (p : Params) (s s' : UState) (b : Blk) (h : applyBlo
     rw [this] at him
     cases him
   · omega
+
+
+/-- what a successful `checkBlock` consists of -/
+theorem checkBlock_ok (p : Params) (n : Node) (b : Blk) (par : Nat) (s' : UState)
+    (h : checkBlock p n b par = .ok s') :
+    ∃ sPar, n.stateAt p par = .ok sPar ∧
+      validateBody p n.outs b (sumVals n.outs b.ins) = none ∧ applyBlock p sPar b = .ok s' := by
+  unfold checkBlock at h
+  split at h
+  · cases h
+  · rename_i sPar hst
+    split at h
+    · cases h
+    · rename_i hvb
+      exact ⟨sPar, hst, hvb, h⟩
 
 end GV.Chain
